@@ -1303,3 +1303,200 @@ func (c *Ctx) laterElementPair(a an.PathAtom) bool {
 	}
 	return try(e1, e2) || try(e2, e1)
 }
+
+// parallelElem resolves an element S[i] of a local slice that was built as a
+// parallel "map" of another one,
+//
+//	S := make([]T, 0, …); for _, x := range X { S = append(S, g(x)) }
+//
+// to g(X[i]). Conditions (all on the SSA form): S's loop-carried φ starts from
+// an empty make/nil, its back-edge value is the append itself (so every
+// iteration that continues appended exactly one element), the appended value
+// depends on the loop only through the range index of that same loop, and the
+// range index starts at -1 and advances by one. Anything else returns e.
+func parallelElem(c *Ctx, e *an.Expr) *an.Expr {
+	if e == nil || e.Op != an.OpElem || len(e.Args) != 2 || e.Args[0].Op != an.OpLoop {
+		return e
+	}
+	ph, ok := e.Args[0].V.(*ssa.Phi)
+	if !ok || len(ph.Edges) != 2 {
+		return e
+	}
+	hdr := ph.Block()
+	var initV, backV ssa.Value
+	for k, pr := range hdr.Preds {
+		if hdr.Dominates(pr) {
+			backV = ph.Edges[k]
+		} else {
+			initV = ph.Edges[k]
+		}
+	}
+	if initV == nil || backV == nil {
+		return e
+	}
+	switch iv := initV.(type) {
+	case *ssa.MakeSlice:
+		if k, isC := iv.Len.(*ssa.Const); !isC || k.Int64() != 0 {
+			return e
+		}
+	case *ssa.Const:
+		if !iv.IsNil() {
+			return e
+		}
+	default:
+		return e
+	}
+	call, ok := backV.(*ssa.Call)
+	if !ok {
+		return e
+	}
+	if b, isB := call.Call.Value.(*ssa.Builtin); !isB || b.Name() != "append" || len(call.Call.Args) != 2 || call.Call.Args[0] != ssa.Value(ph) {
+		return e
+	}
+	sl, ok := call.Call.Args[1].(*ssa.Slice)
+	if !ok {
+		return e
+	}
+	al, ok := sl.X.(*ssa.Alloc)
+	if !ok || al.Referrers() == nil {
+		return e
+	}
+	arr, ok := al.Type().Underlying().(*types.Pointer).Elem().Underlying().(*types.Array)
+	if !ok || arr.Len() != 1 {
+		return e
+	}
+	var stored ssa.Value
+	for _, r := range *al.Referrers() {
+		if ia, ok := r.(*ssa.IndexAddr); ok && ia.Referrers() != nil {
+			for _, rr := range *ia.Referrers() {
+				if st, ok := rr.(*ssa.Store); ok && st.Addr == ssa.Value(ia) {
+					if stored != nil {
+						return e
+					}
+					stored = st.Val
+				}
+			}
+		}
+	}
+	if stored == nil {
+		return e
+	}
+	// the range index of the same loop: φ(-1, φ+1) in the same header
+	var ridx *ssa.Phi
+	for _, in := range hdr.Instrs {
+		p2, ok := in.(*ssa.Phi)
+		if !ok {
+			break
+		}
+		if p2 == ph || len(p2.Edges) != 2 {
+			continue
+		}
+		okInit, okStep := false, false
+		for k, pr := range hdr.Preds {
+			if hdr.Dominates(pr) {
+				if bo, ok := p2.Edges[k].(*ssa.BinOp); ok && bo.Op == token.ADD && bo.X == ssa.Value(p2) {
+					if k1, isC := bo.Y.(*ssa.Const); isC && k1.Int64() == 1 {
+						okStep = true
+					}
+				}
+			} else if k0, isC := p2.Edges[k].(*ssa.Const); isC && k0.Value != nil && k0.Int64() == -1 {
+				okInit = true
+			}
+		}
+		if okInit && okStep {
+			ridx = p2
+		}
+	}
+	if ridx == nil {
+		return e
+	}
+	// the appended value depends on the loop only through X[rangeindex+1]: in the backward slice of
+	// the stored value (within the loop) the range index is used by nothing but its own increment,
+	// and the increment by nothing but element addresses
+	var step ssa.Value
+	for k, pr := range hdr.Preds {
+		if hdr.Dominates(pr) {
+			step = ridx.Edges[k]
+		}
+	}
+	seenV := map[ssa.Value]bool{}
+	okSlice := true
+	var back func(v ssa.Value)
+	back = func(v ssa.Value) {
+		if v == nil || seenV[v] || !okSlice {
+			return
+		}
+		seenV[v] = true
+		in, isInstr := v.(ssa.Instruction)
+		if !isInstr || in.Block() == nil || !hdr.Dominates(in.Block()) {
+			return // defined before the loop
+		}
+		if v == ssa.Value(ridx) || v == ssa.Value(ph) {
+			okSlice = false
+			return
+		}
+		if ia, ok := v.(*ssa.IndexAddr); ok && ia.Index == step {
+			back(ia.X)
+			return
+		}
+		if v == step {
+			okSlice = false // used other than as an element index
+			return
+		}
+		if _, isPhi := v.(*ssa.Phi); isPhi {
+			okSlice = false
+			return
+		}
+		for _, op := range in.Operands(nil) {
+			if *op != nil {
+				back(*op)
+			}
+		}
+	}
+	back(stored)
+	if !okSlice {
+		return e
+	}
+	// the stand-alone evaluation resolves the range index to its first value: elements read at
+	// "(-1 + 1)" are the elements at the range index
+	g := c.XO.Of(stored)
+	bad := false
+	var subst func(x *an.Expr) *an.Expr
+	subst = func(x *an.Expr) *an.Expr {
+		if x == nil {
+			return nil
+		}
+		if x.Op == an.OpLoop {
+			bad = true
+			return x
+		}
+		cp := *x
+		cp.Args = make([]*an.Expr, len(x.Args))
+		for i, a := range x.Args {
+			cp.Args[i] = subst(a)
+		}
+		if cp.Op == an.OpElem && len(cp.Args) == 2 && x.Args[1].String() == "(-1 + 1)" {
+			cp.Args[1] = e.Args[1]
+		}
+		// an element of φ(nil, X) is an element of X: nil has none
+		if cp.Op == an.OpElem && len(cp.Args) >= 1 && cp.Args[0].Op == an.OpPhi {
+			var only *an.Expr
+			nNonNil := 0
+			for _, alt := range cp.Args[0].Args {
+				if !exprIsNil(alt) {
+					only = alt
+					nNonNil++
+				}
+			}
+			if nNonNil == 1 {
+				cp.Args[0] = only
+			}
+		}
+		return &cp
+	}
+	out := subst(g)
+	if bad {
+		return e
+	}
+	return out
+}
